@@ -334,7 +334,7 @@ class Run:
             "wall_s": round(wall, 3),
             "violations": sum(v[0] for v in self.violations.values()),
         }
-        if self.tier != "replay":
+        if self.tier != "replay" and not os.environ.get("VERIF_NO_EVIDENCE"):
             os.makedirs(EVIDENCE_DIR, exist_ok=True)
             path = os.path.join(EVIDENCE_DIR, self.pid + ".json")
             with open(path + ".tmp", "w") as f:
